@@ -233,6 +233,7 @@ func (f *g2lFn) findMutated(fd *ast.FuncDecl) {
 		}
 		return true
 	})
+	f.findMutatedEnv(fd) // go2lean_env.go
 }
 
 // ---------------------------------------------------------------- statements
@@ -292,6 +293,9 @@ func (f *g2lFn) assignTo(l ast.Expr, val string, define bool, ind int) []string 
 	case *ast.SelectorExpr:
 		// x.f = v  ⇒  x = { x with f := v }   (x a struct VALUE, possibly itself a field or element)
 		xt := f.typeOf(x.X)
+		if out, ok := f.ptrFieldAssign(x, val, ind); ok { // go2lean_env.go
+			return out
+		}
 		if g2lKindOf(xt) != kStruct && !f.inOutBase(x.X) && !(g2lIsPtr(xt) && f.ownWritable(x.X)) { // go2lean_own.go
 			f.fail("assignment to `%s` (only fields of struct values; through a pointer the callee's caller would see it)", f.src(l))
 		}
@@ -404,6 +408,9 @@ func (f *g2lFn) ret(x *ast.ReturnStmt, ind int) []string {
 				return []string{g2lInd(ind) + "return " + io[0]}
 			}
 			return []string{g2lInd(ind) + "return (" + strings.Join(io, ", ") + ")"}
+		}
+		if out, ok := f.retVoid(ind); ok { // go2lean_env.go
+			return out
 		}
 		f.fail("bare return (named results are outside the subset)")
 	case 1:
@@ -689,6 +696,9 @@ func (f *g2lFn) stmt(s ast.Stmt, ind int) []string {
 	if out, ok := f.stmtEff(s, ind); ok { // go2lean_effects.go: calls of functions with in-out parameters
 		return out
 	}
+	if out, ok := f.stmtEnv(s, ind); ok { // go2lean_env.go: calls with in-out parameters, out-parameter primitives
+		return out
+	}
 	switch x := s.(type) {
 	case *ast.EmptyStmt:
 		return nil
@@ -873,12 +883,14 @@ func (g *g2l) translateFunc(key string) (u *g2lUnit) {
 		f.fail("no type information")
 	}
 	sig := obj.Type().(*types.Signature)
-	if sig.Variadic() && !g.refsOn() { // go2lean_refs.go: the last parameter is the slice
+	if sig.Variadic() && !g.refsOn() && !g.env().Variadic { // go2lean_refs.go: the last parameter is the slice; go2lean_env.go
 		f.fail("variadic function")
 	}
+	// a function without result: three extensions translate it, each for the configurations that ask for it
 	void := sig.Results().Len() == 0 && g.effectsOn() // go2lean_effects.go: the in-out parameters alone are the result
 	unitVoid := sig.Results().Len() == 0 && g.ownOn() // go2lean_own.go: Unit × the in-out parameters
-	if sig.Results().Len() == 0 && (!(void || unitVoid) || len(g.inOutFor(key)) == 0) {
+	envVoid := sig.Results().Len() == 0 && g.envOn()  // go2lean_env.go: the in-out parameters alone, a return appended to the body
+	if sig.Results().Len() == 0 && (!(void || unitVoid || envVoid) || len(g.inOutFor(key)) == 0) {
 		f.fail("no result (a function without result is only called for its effect)")
 	}
 	if fd.Type.Results != nil {
@@ -925,6 +937,16 @@ func (g *g2l) translateFunc(key string) (u *g2lUnit) {
 		resT = f.lean(sig.Results())
 	}
 	resT = f.inOutResult(resT, sig.Results().Len())
+	if envVoid { // go2lean_env.go: the end of the body returns the in-out parameters
+		resT = f.voidResult()
+		if !g2lTerminates(fd.Body.List) {
+			body := *fd.Body
+			body.List = append(append([]ast.Stmt{}, fd.Body.List...), &ast.ReturnStmt{})
+			fdc := *fd
+			fdc.Body = &body
+			fd = &fdc
+		}
+	}
 	if !void && !unitVoid && !g2lTerminates(fd.Body.List) {
 		f.fail("the body does not end in a return on every path the translator recognises")
 	}
